@@ -70,6 +70,8 @@ def conservation(G, lex_tags, roots, nodes_per_label):
 
 def check_bank(mtjs, cfg):
     mts = [model.MT.from_json(j) for j in mtjs]
+    # in memory a token may consist of several words (TIGER-XML word attributes with a space): every second token
+    mts = [model.MT(m.sid, [dict(tk, word='ad hoc' if i % 2 else tk['word']) for i, tk in enumerate(m.toks)], m.root) for m in mts]
     case = {'bank': mtjs, 'cfg': cfg}
     out = []
     g, lex = {}, {}
